@@ -108,6 +108,9 @@ enum Op {
     DeliverAllTo(u8),
     /// deliver every in-flight message from the first node to the second
     DeliverFromTo(u8, u8),
+    /// deliver only the NEWEST in-flight message from the first node to the second (overtaking
+    /// the older ones, which stay in flight)
+    DeliverLastFromTo(u8, u8),
     /// heartbeat from node, all its AppendEntries delivered, all answers delivered back
     HeartbeatRound(u8),
     /// heartbeat from node, all its AppendEntries delivered; the answers stay in flight
@@ -145,6 +148,7 @@ fn op_strategy(n: u8) -> impl Strategy<Value = Op> {
         2 => any::<u16>().prop_map(Op::Duplicate),
         4 => (0..l).prop_map(Op::DeliverAllTo),
         3 => (0..l, 0..l).prop_map(|(a, b)| Op::DeliverFromTo(a, b)),
+        2 => (0..l, 0..l).prop_map(|(a, b)| Op::DeliverLastFromTo(a, b)),
         6 => (0..l).prop_map(Op::HeartbeatRound),
         3 => (0..l).prop_map(Op::HeartbeatHalf),
         3 => (0..n).prop_map(Op::ElectRound),
@@ -158,7 +162,7 @@ fn op_strategy(n: u8) -> impl Strategy<Value = Op> {
 fn skeleton(which: u8, n: u8) -> Vec<Op> {
     use Op::*;
     let (a, b, c, d, e) = (0u8, 1u8, 2u8, 3u8, 4u8);
-    match which % 5 {
+    match which % 6 {
         // a candidate wins a voter's vote in two consecutive terms (answers lost), the voter
         // restarts, a rival campaigns in the same term
         3 => vec![
@@ -245,6 +249,24 @@ fn skeleton(which: u8, n: u8) -> Vec<Op> {
             HeartbeatRound(c),
             DeliverAllTo(a),
         ],
+        // overtaking appends: the leader sends [e1], then (next_index unchanged) [e1, e2]; the
+        // second request overtakes the first, is acknowledged and lets the leader commit e2; the
+        // first one arrives afterwards (it must not make the follower drop e2); the follower's
+        // answer is lost and the follower then stands for election
+        5 => vec![
+            ElectRound(a),
+            HeartbeatRound(a),
+            Propose(a),
+            Heartbeat(a),
+            Propose(a),
+            Heartbeat(a),
+            DeliverLastFromTo(a, b),
+            DeliverFromTo(b, a),
+            DeliverFromTo(a, b),
+            ElectRound(b),
+            HeartbeatRound(b),
+            ProposeRound(b),
+        ],
         // stale append answer (5 nodes): b's success answer of term 1 stays in flight while a
         // loses leadership, has its log replaced by c's, is re-elected and appends new entries;
         // the old answer then reaches a together with one genuine acknowledgement
@@ -322,6 +344,7 @@ fn map_roles(ops: Vec<Op>, perm: &[u8], n: u8) -> Vec<Op> {
             Op::ProposeRound(x) => Op::ProposeRound(m(x)),
             Op::DeliverAllTo(x) => Op::DeliverAllTo(m(x)),
             Op::DeliverFromTo(x, y) => Op::DeliverFromTo(m(x), m(y)),
+            Op::DeliverLastFromTo(x, y) => Op::DeliverLastFromTo(m(x), m(y)),
             Op::HeartbeatRound(x) => Op::HeartbeatRound(m(x)),
             Op::HeartbeatHalf(x) => Op::HeartbeatHalf(m(x)),
             Op::ElectRound(x) => Op::ElectRound(m(x)),
@@ -340,7 +363,7 @@ fn case_strategy(t: Tier) -> impl Strategy<Value = Case> {
                 prop::collection::vec(0u8..4, n as usize),
                 prop::collection::vec(op_strategy(n), 0..max_ops),
                 // skeleton choice (None in 2/3 of cases), role permutation keys, gap sizes
-                prop::option::weighted(0.4, 0u8..5),
+                prop::option::weighted(0.4, 0u8..6),
                 prop::collection::vec(any::<u16>(), 5),
                 prop::collection::vec(0u8..3, 32),
             )
@@ -692,6 +715,22 @@ impl<'a> Sim<'a> {
                         if let Some(k) = pos {
                             self.deliver_at(k);
                         }
+                    }
+                },
+                _ => self.skipped += 1,
+            },
+            Op::DeliverLastFromTo(a, b) => match (self.who(*a), self.who(*b)) {
+                (Some(a), Some(b)) if a != b => {
+                    let (fa, tb) = (self.ids[a].clone(), self.ids[b].clone());
+                    let pos = self.net.bag.lock().unwrap().iter().rposition(|m| m.from == fa && m.to == tb);
+                    match pos {
+                        Some(k) => {
+                            if k > 0 {
+                                self.out_of_order += 1;
+                            }
+                            self.deliver_at(k);
+                        },
+                        None => self.skipped += 1,
                     }
                 },
                 _ => self.skipped += 1,
